@@ -433,6 +433,7 @@ func ruleCachedDelegates(c *Ctx) {
 	res, wants := paramObjs(info, fi.Decl)[1], paramObjs(info, fi.Decl)[2]
 	// index maps: locals of map type filled only inside `range res`
 	idx := map[types.Object]bool{}
+	fillKey := map[types.Object]string{} // index map → key field it is filled by
 	ast.Inspect(fi.Decl.Body, func(n ast.Node) bool {
 		rs, ok := n.(*ast.RangeStmt)
 		if !ok || objOfIdent(info, rs.X) != res {
@@ -444,6 +445,9 @@ func ruleCachedDelegates(c *Ctx) {
 				if ie, ok := ast.Unparen(as.Lhs[0]).(*ast.IndexExpr); ok && objOfIdent(info, as.Rhs[0]) == rv {
 					if o := objOfIdent(info, ie.X); o != nil {
 						idx[o] = true
+						if ko, kp := selectorPath(info, ie.Index); ko == rv && len(kp) > 0 {
+							fillKey[o] = kp[len(kp)-1]
+						}
 					}
 				}
 			}
@@ -470,8 +474,9 @@ func ruleCachedDelegates(c *Ctx) {
 				// candidate list: []*client.OpResult{index[...]}
 				if cl, ok := ast.Unparen(call.Args[1]).(*ast.CompositeLit); ok && len(cl.Elts) == 1 {
 					if ie, ok := ast.Unparen(cl.Elts[0]).(*ast.IndexExpr); ok && idx[objOfIdent(info, ie.X)] {
-						// key derived from the want
-						if o, _ := selectorPath(info, ie.Index); o != wv {
+						// key derived from the want, and it is the field the index was filled by
+						o, kp := selectorPath(info, ie.Index)
+						if o != wv || len(kp) == 0 || kp[len(kp)-1] != fillKey[objOfIdent(info, ie.X)] {
 							good = false
 						}
 					} else {
